@@ -37,7 +37,7 @@ RULE = (
 ASSUMPTIONS = ["default recursion limit (1000) and a 10 s alarm per graph define 'overflows the stack' / 'loops'", "names x, y and modules a, b stand for all others"]
 MANIFEST = {
     "category": "model_checking",
-    "text": "Exhaustive enumeration of all import graphs (cycles, self-imports, self-wildcards, dangling targets) on three modules within a statement budget and on four modules with one statement each, and explicit-state BFS over all load/resolve histories (depth 4 quick / 5 thorough; four file sets) of mutually importing packages sharing a collection, plus single statements and pairs as file-less modules (visited from a string, rebuilt from JSON); invariants I1-I4 (totality, error family, all-or-nothing, fixpoint) evaluated on the real loader in every state. A fifth file set stages three packages (a wildcard import of a re-exporting module, then a package whose wildcard import displaces the function at the end of the chain), and the dereference invariants are evaluated again in the state the two resolutions leave behind.",
+    "text": "Exhaustive enumeration of all import graphs (cycles, self-imports, self-wildcards, dangling targets) on three modules within a statement budget and on four modules with one statement each, and explicit-state BFS over all load/resolve histories (depth 4 quick / 5 thorough; four file sets) of mutually importing packages sharing a collection, plus single statements and pairs as file-less modules (visited from a string, rebuilt from JSON); invariants I1-I4 (totality, error family, all-or-nothing, fixpoint) evaluated on the real loader in every state. A fifth file set stages three packages (a wildcard import of a re-exporting module, then a package whose wildcard import displaces the function at the end of the chain), and the dereference invariants are evaluated again in the state the two resolutions leave behind. A sixth file set has a four-link alias chain whose end is displaced by a dangling wildcard alias.",
     "note": "Bounded by the statement budget / history depth in the evidence; every transition is an implementation call, there is no separate model to validate.",
     "technique": "explicit-state model checking over import graphs and load/resolve histories on the real loader with invariants",
 }
